@@ -96,10 +96,13 @@ def oracle_factory(ctx):
                 if not cb2.ok or cb2.value != ib2.value:
                     return Failure("C04/rebuild-differs/%s" % fk, "compiled build(compiled parse(%s)) -> %r, interpreter -> %s | %s" % (d.hex(), cb2, ib2.value.hex(), where))
         # sizeof
-        isz = call(con.sizeof, **params)
-        csz = call(comp.sizeof, **params)
-        if isz.ok != csz.ok or (isz.ok and isz.value != csz.value) or (not isz.ok and type(isz.exc) is not type(csz.exc)):
-            return Failure("C04/sizeof-differs/%s" % fk, "compiled sizeof -> %r, interpreter -> %r | %s" % (csz, isz, where))
+        # (the same compiled object is asked again under other keyword contexts: every answer is the original's answer for THAT context)
+        contexts = [params] + ([{k: v + 1 for k, v in params.items()}, {k: 0 for k in params}, params] if params else [])
+        for kw in contexts:
+            isz = call(con.sizeof, **kw)
+            csz = call(comp.sizeof, **kw)
+            if isz.ok != csz.ok or (isz.ok and isz.value != csz.value) or (not isz.ok and type(isz.exc) is not type(csz.exc)):
+                return Failure("C04/sizeof-differs/%s" % fk, "compiled sizeof(%s) -> %r, interpreter -> %r | %s" % (kw, csz, isz, where))
         return None
     return oracle
 
@@ -412,12 +415,45 @@ def campaign_scopes(ctx):
 campaign_scopes.shards = (4, 16)
 
 
+# ---------------------------------------------------------------------------------------------
+# regions whose length prefix allows more than the body needs (accepted: the rest of the region is skipped), inside constructs that
+# pad by what was consumed: generated code must measure consumption like the interpreter, not assume the body's static size
+# ---------------------------------------------------------------------------------------------
+@st.composite
+def slack_cases(draw):
+    body = draw(st.sampled_from([["bytes", 0], ["bytes", 2], B1, ["struct", [["x", B1], ["y", B1]], "ctor"], ["array", 2, B1, "ctor"]]))
+    bsize = G.fixed_size(body)
+    inner = ["prefixed", B1, body, False]
+    wrap = draw(st.sampled_from(["padded", "aligned", "alignedstruct", "fixedsized", "none"]))
+    if wrap == "padded":
+        w = ["padded", bsize + 1 + draw(st.integers(2, 5)), inner, b"\x00"]
+    elif wrap == "aligned":
+        w = ["aligned", draw(st.integers(2, 5)), inner, b"\x00"]
+    elif wrap == "alignedstruct":
+        w = ["alignedstruct", draw(st.integers(2, 4)), [["q", inner], ["r", B1]]]
+    elif wrap == "fixedsized":
+        w = ["fixedsized", bsize + 1 + draw(st.integers(2, 5)), inner]
+    else:
+        w = inner
+    spec = ["struct", [["h", B1], ["w", w], ["t", ["bytes", 2]]], "ctor"]
+    datas = []
+    for _ in range(draw(st.integers(1, 3))):
+        slack = draw(st.integers(0, 2))
+        datas.append(bytes([draw(st.integers(0, 255)), bsize + slack]) + draw(st.binary(min_size=24, max_size=24)))
+    return [spec, {}, None, datas, True]
+
+
+def campaign_slack(ctx):
+    ctx.search(slack_cases(), oracle_factory(ctx), ctx.budget(2000, 40000))
+campaign_slack.shards = (1, 4)
+
+
 def campaign_seeking(ctx):
     ctx.search(seeking_cases(), oracle_factory(ctx), ctx.budget(12000, 200000))
 campaign_seeking.shards = (4, 16)
 
 
-CAMPAIGNS = {"grammar": campaign_grammar, "probes": campaign_probes, "seeking": campaign_seeking, "bitlevel": campaign_bitlevel, "scopes": campaign_scopes}
+CAMPAIGNS = {"grammar": campaign_grammar, "probes": campaign_probes, "seeking": campaign_seeking, "bitlevel": campaign_bitlevel, "scopes": campaign_scopes, "slack": campaign_slack}
 
 
 def replay(campaign, case):
